@@ -229,6 +229,7 @@ def observe(spec, rhs, left, st, via="solve", fwd_rhs=None):
                         res["fresh_exc"] = "%s: %s" % (type(ex).__name__, str(ex)[:120])
                 else:
                     op = ops.build(spec)
+                res["op_class"], res["n_operands"] = type(op).__name__, len(getattr(op, "linear_ops", ()) or ())
                 # (building a factor operator runs cholesky(): those events are not part of the solve)
                 n0, c0 = len(cap.msgs), len(cgcalls)
                 if via == "backward":
@@ -356,7 +357,7 @@ def total_size(cls, kw, n):
         return n * kw["blocks"]
     if cls in ("CholOf", "FactorTri", "Derived"):
         return total_size(kw["base"], kw.get("base_kw", {}), n)
-    return n
+    return n          # (Compose: n is the size of the composed operator)
 
 
 RHS_MODS = ["zerocol", "zeromember", "allzero", "scales"]
@@ -618,6 +619,64 @@ def family_cells(ctx, rng, configs):
                             add("rhs", cls, kw, n, ob, kind, st, KAPPAS[(ci + mi) % 3], via="backward", rhsmod=mod)
     out += threshold_cells(ctx, d, base, CG)
     out += history_cells(ctx, d, base, CG)
+    out += compose_cells(ctx, d, base, CG)
+    return out
+
+
+# (f) operators produced by PUBLIC COMPOSITION (+, *, add_jitter, add_diagonal chains of length 2-3 on the natural operands of every
+#     class with a structured solve), whatever class the dispatch returns: solved on the Cholesky route and on the structured / CG route
+#     of the SAME operator, against the dense oracle and against each other.  Predicate only; a result of a modelled class that violates
+#     the model's arity assumption (SumKron: exactly two products) is flagged.
+K23 = ("Kron", {"sizes": (2, 3)}, 6)
+KD23 = ("KronDiag", {"sizes": (2, 3)}, 6)
+LR6 = ("LowRankRootAddedDiag", {"rank": 2}, 6)
+DN6, DG6, CD6 = ("Dense", {}, 6), ("Diag", {}, 6), ("ConstantDiag", {}, 6)
+OP = lambda i: ["op", i]            # noqa
+ADD = lambda a, b: ["add", a, b]    # noqa
+RECIPES = [
+    ("K+K", [K23, K23], ADD(OP(0), OP(1)), True),
+    ("K+K+K", [K23, K23, K23], ADD(ADD(OP(0), OP(1)), OP(2)), True),
+    ("K+(K+K)", [K23, K23, K23], ADD(OP(0), ADD(OP(1), OP(2))), True),
+    ("(K+K)+(K+K)", [K23, K23, K23, K23], ADD(ADD(OP(0), OP(1)), ADD(OP(2), OP(3))), True),
+    ("(K+K)+Kdiag", [K23, K23, KD23], ADD(ADD(OP(0), OP(1)), OP(2)), True),
+    ("(K+K)+Diag", [K23, K23, DG6], ADD(ADD(OP(0), OP(1)), OP(2)), True),
+    ("(K+K).add_jitter", [K23, K23], ["jitter", ADD(OP(0), OP(1)), 0.3], True),
+    ("(K+K)*c+K", [K23, K23, K23], ADD(["mul", ADD(OP(0), OP(1)), 1.7], OP(2)), True),
+    ("K+Kdiag", [K23, KD23], ADD(OP(0), OP(1)), True),
+    ("(K+Kdiag)+K", [K23, KD23, K23], ADD(ADD(OP(0), OP(1)), OP(2)), True),
+    ("(K+Kdiag)+Kdiag", [K23, KD23, KD23], ADD(ADD(OP(0), OP(1)), OP(2)), True),
+    ("(K+Kdiag)+Diag", [K23, KD23, DG6], ADD(ADD(OP(0), OP(1)), OP(2)), True),
+    ("K.add_jitter", [K23], ["jitter", OP(0), 0.5], True),
+    ("K.add_jitter.add_jitter", [K23], ["jitter", ["jitter", OP(0), 0.5], 0.2], True),
+    ("K.add_jitter+K", [K23, K23], ADD(["jitter", OP(0), 0.5], OP(1)), True),
+    ("K.add_diagonal", [K23, DG6], ["add_diagonal", OP(0), 1], True),
+    ("K+ConstantDiag+ConstantDiag", [K23, CD6, CD6], ADD(ADD(OP(0), OP(1)), OP(2)), True),
+    ("K*c+K", [K23, K23], ADD(["mul", OP(0), 2.0], OP(1)), True),
+    ("LR+Diag+Diag", [LR6, DG6, DG6], ADD(ADD(OP(0), OP(1)), OP(2)), False),
+    ("LR*c+Diag", [LR6, DG6], ADD(["mul", OP(0), 2.0], OP(1)), False),
+    ("LR.add_jitter+Diag", [LR6, DG6], ADD(["jitter", OP(0), 0.4], OP(1)), False),
+    ("LR+LR", [LR6, LR6], ADD(OP(0), OP(1)), False),
+    ("Dense+Dense+Dense", [DN6, DN6, DN6], ADD(ADD(OP(0), OP(1)), OP(2)), False),
+    ("Dense+Diag+Diag", [DN6, DG6, DG6], ADD(ADD(OP(0), OP(1)), OP(2)), False),
+    ("Dense.add_jitter.add_diagonal", [DN6, DG6], ["add_diagonal", ["jitter", OP(0), 0.1], 1], False),
+    ("(Dense+Diag)*c+Dense", [DN6, DG6, DN6], ADD(["mul", ADD(OP(0), OP(1)), 0.5], OP(2)), False),
+    ("Diag+Diag+ConstantDiag", [DG6, DG6, CD6], ADD(ADD(OP(0), OP(1)), OP(2)), False),
+    ("BlockDiag+Diag", [("BlockDiag", {"blocks": 2}, 3), DG6], ADD(OP(0), OP(1)), False),
+    ("Toeplitz+Toeplitz+Diag", [("Toeplitz", {}, 6), ("Toeplitz", {}, 6), DG6], ADD(ADD(OP(0), OP(1)), OP(2)), False),
+]
+
+
+def compose_cells(ctx, d, base, CG):
+    out = []
+    for ri, (name, parts, expr, kron_like) in enumerate(RECIPES):
+        # the structured route: max_cholesky_size between the largest Kronecker factor and N (exact roots / eigen-decompositions), or
+        # conjugate gradients at a tight tolerance for the classes without one
+        routes = [dict(base), dict(base, mcs=3) if kron_like else dict(CG(1e-4), mps=5)]
+        for ob, kind in (((), "mat"), ((), "left"), ((2,), "mat")) if ctx.quick else (((), "mat"), ((), "left"), ((), "vec"), ((2,), "mat"), ((2,), "leftbat")):
+            for pi, st in enumerate(routes):
+                out.append(dict(cls="Compose", kw={"recipe": name, "parts": parts, "expr": expr}, n=6, N=6, ob=ob, kind=kind, st=dict(st),
+                                kappa=KAPPAS[ri % 3], dtype="f64", fam="compose", via="solve",
+                                pair="compose/%s/%s/%s" % (name, "b" if ob else "u", kind)))
     return out
 
 
@@ -810,6 +869,10 @@ def predicate(cell, spec, rhs, left, obs):
     if not torch.is_tensor(out2) or out2.shape != out.shape or \
             (out2 - out).abs().max().item() > cell_tol(cell, obs["events"]) * max(1.0, out.abs().max().item()):
         return ("repeat", "a second solve on the same object returns a different answer")
+    if obs.get("op_class") == "SumKroneckerLinearOperator" and obs.get("n_operands") != 2:
+        # the modelled class (DSumKron fs1 fs2: wfpd) and the library's structured _solve / _logdet / roots are the TWO-product identity
+        return ("model-arity", "public composition produced a SumKroneckerLinearOperator with %d operands; the class's structured solve "
+                               "(and the model: DSumKron fs1 fs2) is defined for exactly two Kronecker products" % obs["n_operands"])
     if spec["cls"] == "Derived" and not any(e[0] == "cg" for e in obs["events"]):
         # the derived operator must answer like the same derivation of a never-queried parent
         if "fresh_exc" in obs:
@@ -1031,7 +1094,9 @@ def key_of(cell, spec, obs, fail):
     k["linalg_dtypes"] = "%s=%s" % tuple(cell["st"]["ldt"]) if cell["st"].get("ldt") else None
     if spec["cls"] == "Derived":
         k["derive"], k["query"], k["base_tree"] = spec["derive"], spec["query"], ops.label(spec["base"])
+    if spec["cls"] in ("Derived", "Compose"):
         k["structured_path"] = bool(cell["st"]["fast"] and cell["N"] > cell["st"]["mcs"])
+        k["result_class"] = obs.get("op_class")
     if cell["cls"] in ("KronAddedDiag", "SumKron"):
         k["diag_kind"] = cell["kw"].get("dk") if isinstance(cell.get("kw"), dict) else None
         # the structured branch with a factor larger than max_cholesky_size (its diagonalization() then runs Lanczos)
@@ -1190,7 +1255,7 @@ def run(ctx):
         lit = None
         if "exc" in obs:
             stats["raised"] += 1
-        elif spec["cls"] == "Derived":
+        elif spec["cls"] in ("Derived", "Compose"):
             lit = None        # histories are judged by the predicate only (the derived operator's class is the library's choice)
         elif f is None or f[0] in ("value", "residual"):
             lit = case_lit(cell, spec, rhs, left, obs)      # (wrong shape / dtype / type: no Coq case, the predicate already failed)
